@@ -58,6 +58,15 @@ def case_gen(draw, files=False):
     field = {'int': INTS, 'float': FLOATS, 'bool': st.booleans(), 'str': strs}
     nrows = draw(st.integers(1, 5))
     rows = [[draw(field[t]) for t in types] for _ in range(nrows)]
+    scols = [c for c, t in enumerate(types) if t == 'str']
+    if scols and draw(st.integers(0, 3)) == 0:
+        # the escape character in front of ordinary letters (a Windows path, a regular expression): 'C:<esc>new<esc>table'
+        rows[draw(st.integers(0, nrows - 1))][draw(st.sampled_from(scols))] = 'C:' + esc + 'new' + esc + 'table' + esc + 'r' + esc
+    others = [c for c, t in enumerate(types) if t != 'str']
+    if scols and others and draw(st.integers(0, 3)) == 0:
+        # a text cell that reads exactly like the cell of another type next to it (an identifier / a flag kept as text)
+        r_ = draw(st.integers(0, nrows - 1))
+        rows[r_][draw(st.sampled_from(scols))] = str(rows[r_][draw(st.sampled_from(others))])
     case = {'sep': sep, 'esc': esc, 'types': types, 'rows': rows}
     if files:
         case['repeat'] = draw(st.sampled_from([1, 50, 3000]))
